@@ -547,4 +547,86 @@ theorem roundPos_isRNE (n d : Nat) (hn : 0 < n) (hd : 0 < d) : IsRNE ((n : ℚ) 
           _ = q - 2 ^ 52 * (2 : ℚ) ^ e := by rw [hqx]; ring
       linarith
 
+
+/-! ## literals -/
+
+
+/-- magnitude of the rational denoted by a literal: `mant · 10^scale` -/
+def magVal (l : Lit) : ℚ := (l.mant : ℚ) * (10 : ℚ) ^ l.scale
+
+/-- the rational denoted by a literal -/
+def litVal (l : Lit) : ℚ := if l.neg then -magVal l else magVal l
+
+theorem infBits_lt : infBits < 2 ^ 63 := by unfold infBits; norm_num
+
+theorem roundPos_le (n d : Nat) (hd : 0 < d) : roundPos n d ≤ infBits := by
+  by_cases hn : n = 0
+  · subst hn; unfold roundPos; simp [infBits]
+  · exact (roundPos_isRNE n d (Nat.pos_of_ne_zero hn) hd).le_inf
+
+theorem roundPos_zero (d : Nat) : roundPos 0 d = 0 := by unfold roundPos; simp
+
+/-- `litToBits` is sign-and-magnitude IEEE rounding of the literal's rational value -/
+theorem litToBits_sound (l : Lit) (u : UInt64) (h : litToBits l = some u) :
+    (u.toNat / 2 ^ 63 = if l.neg then 1 else 0) ∧
+    (l.mant = 0 → u.toNat % 2 ^ 63 = 0) ∧
+    (l.mant ≠ 0 → IsRNE (magVal l) (u.toNat % 2 ^ 63)) := by
+  unfold litToBits at h
+  split at h
+  · exact absurd h (by simp)
+  · set nd : Nat × Nat := if l.scale ≥ 0 then (l.mant * 10 ^ l.scale.toNat, 1) else (l.mant, 10 ^ (-l.scale).toNat) with hnd
+    have hd : 0 < nd.2 := by
+      rw [hnd]; split
+      · exact Nat.one_pos
+      · exact Nat.pow_pos (by norm_num)
+    have hratio : (nd.1 : ℚ) / nd.2 = magVal l := by
+      unfold magVal
+      rw [hnd]; split
+      · rename_i hs
+        obtain ⟨k, hk⟩ := Int.eq_ofNat_of_zero_le hs
+        rw [hk]; simp
+      · rename_i hs
+        obtain ⟨k, hk⟩ := Int.eq_ofNat_of_zero_le (show 0 ≤ -l.scale by omega)
+        have : l.scale = -(k : ℤ) := by omega
+        rw [hk, this]; simp [zpow_neg, div_eq_mul_inv]
+    have hn0 : nd.1 = 0 ↔ l.mant = 0 := by
+      rw [hnd]; split
+      · simp
+      · simp
+    have hb := roundPos_le nd.1 nd.2 hd
+    have hlt := infBits_lt
+    have hu : u = UInt64.ofNat (if l.neg then roundPos nd.1 nd.2 + 2 ^ 63 else roundPos nd.1 nd.2) := by
+      have h' : some (UInt64.ofNat (if l.neg then roundPos nd.1 nd.2 + 2 ^ 63 else roundPos nd.1 nd.2)) = some u := h
+      exact (Option.some.inj h').symm
+    have hun : u.toNat = (if l.neg then roundPos nd.1 nd.2 + 2 ^ 63 else roundPos nd.1 nd.2) := by
+      rw [hu, UInt64.toNat_ofNat']
+      apply Nat.mod_eq_of_lt
+      split <;> omega
+    refine ⟨?_, ?_, ?_⟩
+    · rw [hun]; split <;> omega
+    · intro hm
+      rw [hun, hn0.mpr hm, roundPos_zero]; split <;> omega
+    · intro hm
+      have hpos : 0 < nd.1 := Nat.pos_of_ne_zero (fun h0 => hm (hn0.mp h0))
+      have := roundPos_isRNE nd.1 nd.2 hpos hd
+      rw [hratio] at this
+      have hmod : u.toNat % 2 ^ 63 = roundPos nd.1 nd.2 := by rw [hun]; split <;> omega
+      rw [hmod]; exact this
+
+/-- the rational denoted by a finite binary64 pattern (sign and magnitude) -/
+def val64 (u : UInt64) : ℚ :=
+  if u.toNat / 2 ^ 63 = 1 then -valPos (u.toNat % 2 ^ 63) else valPos (u.toNat % 2 ^ 63)
+
+/-- `toBits tok = some u`: `tok` is a `<signed numeric literal>` (`parseLit`), and `u` is the
+sign-and-magnitude IEEE 754 roundTiesToEven of the rational it denotes. -/
+theorem toBits_sound (s : List Char) (u : UInt64) (h : toBits s = some u) :
+    ∃ l, parseLit s = some l ∧
+      (u.toNat / 2 ^ 63 = if l.neg then 1 else 0) ∧
+      (l.mant = 0 → u.toNat % 2 ^ 63 = 0) ∧
+      (l.mant ≠ 0 → IsRNE (magVal l) (u.toNat % 2 ^ 63)) := by
+  unfold toBits at h
+  cases hp : parseLit s with
+  | none => rw [hp] at h; exact absurd h (by simp)
+  | some l => rw [hp] at h; exact ⟨l, rfl, litToBits_sound l u h⟩
+
 end GeomV.Dec
